@@ -12,7 +12,7 @@
 From Coq Require Import String.
 From Coq Require Extraction.
 From Coq Require ExtrOcamlBasic.
-From Ldlm Require Import Model.Base Model.Err Model.Sv Proofs.SvDefs.
+From Ldlm Require Import Model.Base Model.Err Model.Sv Model.SvTrace Proofs.SvDefs.
 Local Open Scope Z_scope.
 
 Definition sv_threads (s : svstate) : list (nat * sthread) := map_to_list (v_thr s).
@@ -107,8 +107,13 @@ Definition byte_to_N := Byte.to_N.
 Definition byte_of_N := Byte.of_N.
 Definition err_name_b (e : err) : list byte := list_byte_of_string (err_go_name e).
 
+(** [sv_trace_verdict] (Model/SvTrace.v): the trace predicates q_c05_unlock, q_c05_renew, q_c06_release (strict / outside F-LEAK),
+    q_c09_image (live, ended, bound), q_c09_surplus_in_flight, the F-OVER shape, q_c11_keeps as "first offending transition"; proved
+    [None] on every run of the model (Proofs/SvTraceP.v, svtrace_verdict_w; the strict C06 one outside [sig_fleak], the F-OVER shape
+    is refutable); `svdriver trace` evaluates them on the REAL observations of harness/svsched. *)
 Extraction "svmodel.ml" vstep sv_init label_of sv_threads sv_sessions sv_tmkeys sv_timer_nk sv_enabled sv_blocked sv_forced
-  sitem_okb sv_listing sv_table sv_file sv_armed sv_zombies leak_sids byte_to_N byte_of_N err_name_b all_errs sys_base.
+  sitem_okb sv_listing sv_table sv_file sv_armed sv_zombies leak_sids byte_to_N byte_of_N err_name_b all_errs sys_base
+  sv_trace_verdict sig_fleak sv_observe.
 
 (** ** The generator's filter implies the proofs' side condition.
     These lemmas come AFTER the Extraction command on purpose: if Proofs/SvDefs.v's [sitem_ok] changes and they stop
